@@ -1,8 +1,15 @@
-(* format_timestamp / parse_timestamp (src/stdlib/format_timestamp.rs, parse_timestamp.rs; chrono's strftime
-   formatter and parser).  Definitions only. *)
+(* format_timestamp / parse_timestamp (src/stdlib/format_timestamp.rs, parse_timestamp.rs,
+   src/compiler/conversion/mod.rs Conversion::timestamp, src/compiler/datetime.rs) on the full-precision
+   layouts, with the parts of chrono 0.4 they reach: the strftime items of these layouts, the numeric /
+   fraction / offset formatters, format::parse::parse_internal for the same items (scan::number,
+   nanosecond, nanosecond_fixed, timezone_offset, parse_rfc3339_relaxed), Parsed::to_datetime.
+   Definitions only.  The proleptic Gregorian calendar (NaiveDate <-> day number) is modelled at
+   specification level by the civil-from-days / days-from-civil formulas, not table by table.
+   Everything outside the four layouts below is "not modelled" (None): no tie is claimed for it.
+   The program's timezone is UTC (the harness runs every case with it). *)
 From Coq Require Import String.
 From Coq Require Import List NArith ZArith Bool.
-From VRL Require Import Base.Bytes Base.Value Model.ConvRes.
+From VRL Require Import Base.Bytes Base.Value Model.ConvRes Model.IntText Model.UnixTs.
 Import ListNotations.
 Local Open Scope Z_scope.
 
@@ -19,6 +26,348 @@ Definition full_precision (fmt : value) : bool :=
   | _ => false
   end.
 
+(* ---------- calendar ---------- *)
+
+(* day number (days since 1970-01-01) -> (year, month, day) *)
+Definition civil_from_days (z0 : Z) : Z * Z * Z :=
+  let z := z0 + 719468 in
+  let era := z / 146097 in
+  let doe := z - era * 146097 in
+  let yoe := (doe - doe / 1460 + doe / 36524 - doe / 146096) / 365 in
+  let y := yoe + era * 400 in
+  let doy := doe - (365 * yoe + yoe / 4 - yoe / 100) in
+  let mp := (5 * doy + 2) / 153 in
+  let d := doy - (153 * mp + 2) / 5 + 1 in
+  let m := if mp <? 10 then mp + 3 else mp - 9 in
+  (if m <=? 2 then y + 1 else y, m, d).
+
+Definition days_from_civil (y0 m d : Z) : Z :=
+  let y := if m <=? 2 then y0 - 1 else y0 in
+  let era := y / 400 in
+  let yoe := y - era * 400 in
+  let doy := (153 * (if 2 <? m then m - 3 else m + 9) + 2) / 5 + d - 1 in
+  let doe := yoe * 365 + yoe / 4 - yoe / 100 + doy in
+  era * 146097 + doe - 719468.
+
+(* NaiveDate::from_ymd_opt succeeds: the setters have already checked 1 <= m <= 12 and 1 <= d <= 31 *)
+Definition valid_ymd (y m d : Z) : bool :=
+  (-262143 <=? y) && (y <=? 262142) && (1 <=? m) && (m <=? 12) && (1 <=? d) && (d <=? 31)
+  && (let '(y', m', d') := civil_from_days (days_from_civil y m d) in (y' =? y) && (m' =? m) && (d' =? d)).
+
+(* ---------- the layouts ---------- *)
+
+Inductive layout :=
+| LIsoNano      (* %Y-%m-%dT%H:%M:%S%.9f%z *)
+| LIsoAuto      (* %Y-%m-%dT%H:%M:%S%.f%:z *)
+| LRfc3339      (* %+ *)
+| LSpaceNum.    (* %Y-%m-%d %H:%M:%S.%f   (no offset: the program's timezone, UTC) *)
+
+Definition layout_of (fmt : bytes) : option layout :=
+  if bytes_eqb fmt (ascii_bytes "%Y-%m-%dT%H:%M:%S%.9f%z") then Some LIsoNano
+  else if bytes_eqb fmt (ascii_bytes "%Y-%m-%dT%H:%M:%S%.f%:z") then Some LIsoAuto
+  else if bytes_eqb fmt (ascii_bytes "%+") then Some LRfc3339
+  else if bytes_eqb fmt (ascii_bytes "%Y-%m-%d %H:%M:%S.%f") then Some LSpaceNum
+  else None.
+
+(* ---------- formatting ---------- *)
+
+Definition dchar (d : Z) : N := Z.to_N (48 + d).
+
+(* n written with exactly w decimal digits (n < 10^w) *)
+Fixpoint pad_digits (w : nat) (n : Z) : bytes :=
+  match w with
+  | O => []
+  | S w' => pad_digits w' (n / 10) ++ [dchar (n mod 10)]
+  end.
+
+(* Numeric::Year with Pad::Zero, and the year of write_rfc3339: four digits for 0..=9999, otherwise an
+   explicit sign and at least four digits ({:+05}) *)
+Definition year_text (y : Z) : bytes :=
+  if (0 <=? y) && (y <=? 9999) then pad_digits 4 y
+  else
+    let a := Z.abs y in
+    (if y <? 0 then 45%N else 43%N)
+      :: (if a <? 10000 then pad_digits 4 a
+          else match digits_loop 64 10 a [] with Some s => s | None => [] end).
+
+(* Fixed::Nanosecond9: ".%09" *)
+Definition frac9 (nanos : Z) : bytes := 46%N :: pad_digits 9 nanos.
+(* Fixed::Nanosecond and SecondsFormat::AutoSi: nothing, or 3, 6 or 9 digits *)
+Definition frac_auto (nanos : Z) : bytes :=
+  if nanos =? 0 then []
+  else if nanos mod 1000000 =? 0 then 46%N :: pad_digits 3 (nanos / 1000000)
+  else if nanos mod 1000 =? 0 then 46%N :: pad_digits 6 (nanos / 1000)
+  else 46%N :: pad_digits 9 nanos.
+
+Definition format_layout (l : layout) (ns : Z) : bytes :=
+  let secs := ns / 1000000000 in
+  let nanos := ns mod 1000000000 in
+  let days := secs / 86400 in
+  let sod := secs mod 86400 in
+  let '(y, m, d) := civil_from_days days in
+  let hh := sod / 3600 in
+  let mm := (sod / 60) mod 60 in
+  let ss := sod mod 60 in
+  year_text y ++ 45%N :: pad_digits 2 m ++ 45%N :: pad_digits 2 d
+  ++ (match l with LSpaceNum => 32%N | _ => 84%N end)
+     :: pad_digits 2 hh ++ 58%N :: pad_digits 2 mm ++ 58%N :: pad_digits 2 ss
+  ++ match l with
+     | LIsoNano => frac9 nanos ++ ascii_bytes "+0000"
+     | LIsoAuto => frac_auto nanos ++ ascii_bytes "+00:00"
+     | LRfc3339 => frac_auto nanos ++ ascii_bytes "+00:00"
+     | LSpaceNum => 46%N :: pad_digits 9 nanos
+     end.
+
 (* None = not modelled *)
-Definition format_timestamp (x fmt : value) : option (res value) := None.
-Definition parse_timestamp (x fmt : value) : option (res value) := None.
+Definition format_timestamp (x fmt : value) : option (res value) :=
+  match x with
+  | VTs ns =>
+      match fmt with
+      | VBytes f => match layout_of f with
+                    | Some l => Some (ROk (VBytes (format_layout l ns)))
+                    | None => None
+                    end
+      | _ => Some RErr
+      end
+  | _ => Some RErr
+  end.
+
+(* ---------- parsing ---------- *)
+
+(* parser outcome: a value and the remaining input, an error (any ParseError), or "not covered by this model" *)
+Inductive pr (A : Type) :=
+| POk (a : A) (rest : bytes)
+| PErr
+| PUnk.
+Arguments POk {A} a rest.
+Arguments PErr {A}.
+Arguments PUnk {A}.
+
+Definition pbind {A B} (p : pr A) (f : A -> bytes -> pr B) : pr B :=
+  match p with POk a r => f a r | PErr => PErr | PUnk => PUnk end.
+
+Definition is_ws (c : N) : bool := ((9 <=? c) && (c <=? 13) || (c =? 32))%N.
+Definition is_digit (c : N) : bool := ((48 <=? c) && (c <=? 57))%N.
+
+(* str::trim_start; a non-ASCII byte in front could be Unicode white space: not covered *)
+Fixpoint trim_start (s : bytes) : pr unit :=
+  match s with
+  | [] => POk tt []
+  | c :: s' => if is_ws c then trim_start s'
+               else if (128 <=? c)%N then PUnk
+               else POk tt s
+  end.
+
+(* the digit loop of scan::number(s, min, max) after the length test; i = digits consumed so far *)
+Fixpoint number_loop (fuel : nat) (s : bytes) (min max i : nat) (n : Z) : pr Z :=
+  match fuel with
+  | O => POk n s
+  | S f =>
+      if Nat.leb max i then POk n s
+      else match s with
+           | [] => POk n s
+           | c :: s' =>
+               if is_digit c then
+                 let n' := n * 10 + (Z.of_N c - 48) in
+                 if in_i64 n' then number_loop f s' min max (S i) n' else PErr     (* OUT_OF_RANGE *)
+               else if Nat.ltb i min then PErr else POk n s
+           end
+  end.
+
+Definition number (s : bytes) (min max : nat) : pr Z :=
+  if Nat.ltb (length s) min then PErr else number_loop (S (length s)) s min max O 0.
+
+(* Item::Numeric: optional white space, then the number; `signed` (the year) accepts an explicit sign followed
+   by any number of digits.  `unbounded` stands for usize::MAX. *)
+Definition numeric (width : nat) (signed : bool) (s : bytes) : pr Z :=
+  pbind (trim_start s) (fun _ s =>
+    if signed then
+      match s with
+      | c :: s' =>
+          if (c =? 45)%N then pbind (number s' 1 (length s')) (fun v r => POk (- v) r)
+          else if (c =? 43)%N then number s' 1 (length s')
+          else number s 1 width
+      | [] => number s 1 width
+      end
+    else number s 1 width).
+
+Definition literal (c : N) (s : bytes) : pr unit :=
+  match s with
+  | d :: s' => if (c =? d)%N then POk tt s' else PErr
+  | [] => PErr
+  end.
+
+Fixpoint skip_digits (s : bytes) : bytes :=
+  match s with
+  | c :: s' => if is_digit c then skip_digits s' else s
+  | [] => []
+  end.
+
+Definition scale9 (consumed : nat) : Z :=
+  match consumed with
+  | 1%nat => 100000000 | 2%nat => 10000000 | 3%nat => 1000000 | 4%nat => 100000 | 5%nat => 10000
+  | 6%nat => 1000 | 7%nat => 100 | 8%nat => 10 | 9%nat => 1 | _ => 0
+  end.
+
+(* Fixed::Nanosecond: an optional "." followed by digits, scaled; digits after the ninth are skipped *)
+Definition nanosecond_opt (s : bytes) : pr (option Z) :=
+  match s with
+  | c :: s' =>
+      if (c =? 46)%N then
+        pbind (number s' 1 9) (fun v r =>
+          POk (Some (v * scale9 (length s' - length r))) (skip_digits r))
+      else POk None s
+  | [] => POk None s
+  end.
+
+(* Fixed::Nanosecond9: an optional "." followed by exactly nine digits *)
+Definition nanosecond9_opt (s : bytes) : pr (option Z) :=
+  match s with
+  | c :: s' => if (c =? 46)%N then pbind (number s' 9 9) (fun v r => POk (Some v) r) else POk None s
+  | [] => POk None s
+  end.
+
+(* scan::colon_or_space *)
+Fixpoint colon_or_space (s : bytes) : pr unit :=
+  match s with
+  | [] => POk tt []
+  | c :: s' => if is_ws c || (c =? 58)%N then colon_or_space s'
+               else if (128 <=? c)%N then PUnk
+               else POk tt s
+  end.
+
+(* scan::timezone_offset(s, colon_or_space, allow_zulu, false, true): offset in seconds *)
+Definition timezone_offset (allow_zulu : bool) (s : bytes) : pr Z :=
+  match s with
+  | [] => PErr
+  | c :: s1 =>
+      if allow_zulu && ((c =? 90) || (c =? 122))%N then POk 0 s1
+      else if (128 <=? c)%N then PUnk                       (* U+2212 MINUS SIGN is accepted by chrono *)
+      else if negb ((c =? 43) || (c =? 45))%N then PErr
+      else
+        let negative := (c =? 45)%N in
+        match s1 with
+        | h1 :: h2 :: s2 =>
+            if is_digit h1 && is_digit h2 then
+              let hours := (Z.of_N h1 - 48) * 10 + (Z.of_N h2 - 48) in
+              pbind (colon_or_space s2) (fun _ s3 =>
+                match s3 with
+                | m1 :: m2 :: s4 =>
+                    if is_digit m1 && is_digit m2 then
+                      if (Z.of_N m1 - 48 <=? 5) then
+                        let secs := hours * 3600 + ((Z.of_N m1 - 48) * 10 + (Z.of_N m2 - 48)) * 60 in
+                        POk (if negative then - secs else secs) s4
+                      else PErr
+                    else PErr
+                | _ => PErr
+                end)
+            else PErr
+        | _ => PErr
+        end
+  end.
+
+Definition in_i32 (z : Z) : bool := (-2147483648 <=? z) && (z <=? 2147483647).
+
+(* the fields as the Parsed setters accept them *)
+Definition set_year (v : Z) : pr Z := if in_i32 v then POk v [] else PErr.
+Definition check_range (lo hi v : Z) : bool := (lo <=? v) && (v <=? hi).
+
+(* date: Year [Space] "-" Month [Space] "-" Day ; `relaxed` = the Space items of parse_rfc3339_relaxed *)
+Definition parse_date (relaxed : bool) (s : bytes) : pr (Z * Z * Z) :=
+  let sp (s : bytes) : pr unit := if relaxed then trim_start s else POk tt s in
+  pbind (numeric 4 true s) (fun y s =>
+  if negb (in_i32 y) then PErr else
+  pbind (sp s) (fun _ s => pbind (literal 45 s) (fun _ s =>
+  pbind (numeric 2 false s) (fun m s =>
+  if negb (check_range 1 12 m) then PErr else
+  pbind (sp s) (fun _ s => pbind (literal 45 s) (fun _ s =>
+  pbind (numeric 2 false s) (fun d s =>
+  if negb (check_range 1 31 d) then PErr else POk (y, m, d) s))))))).
+
+(* time: Hour [Space] ":" Minute [Space] ":" Second *)
+Definition parse_hms (relaxed : bool) (s : bytes) : pr (Z * Z * Z) :=
+  let sp (s : bytes) : pr unit := if relaxed then trim_start s else POk tt s in
+  pbind (numeric 2 false s) (fun hh s =>
+  if negb (check_range 0 23 hh) then PErr else
+  pbind (sp s) (fun _ s => pbind (literal 58 s) (fun _ s =>
+  pbind (numeric 2 false s) (fun mm s =>
+  if negb (check_range 0 59 mm) then PErr else
+  pbind (sp s) (fun _ s => pbind (literal 58 s) (fun _ s =>
+  pbind (numeric 2 false s) (fun ss s =>
+  if negb (check_range 0 60 ss) then PErr else POk (hh, mm, ss) s))))))).
+
+(* Parsed::to_datetime / to_datetime_with_timezone(UTC), then datetime_to_utc: nanoseconds since the epoch.
+   A second of 60 is the leap second: 59 with one more second of nanoseconds. *)
+Definition resolve (ymd : Z * Z * Z) (hms : Z * Z * Z) (nano : option Z) (offset : Z) : res Z :=
+  let '(y, m, d) := ymd in
+  let '(hh, mm, ss) := hms in
+  let nano := match nano with Some n => n | None => 0 end in
+  if negb (valid_ymd y m d) then RErr
+  else if negb ((-86400 <? offset) && (offset <? 86400)) then RErr         (* FixedOffset::east_opt *)
+  else
+    let '(sec, extra) := if ss =? 60 then (59, 1000000000) else (ss, 0) in
+    let local := days_from_civil y m d * 86400 + hh * 3600 + mm * 60 + sec in
+    let utc := local - offset in
+    if secs_in_range utc then ROk (utc * 1000000000 + extra + nano) else RErr.
+
+Definition finish {A} (p : pr A) (f : A -> bytes -> option (res Z)) : option (res Z) :=
+  match p with POk a r => f a r | PErr => Some RErr | PUnk => None end.
+
+(* the whole input under one layout: None = not covered *)
+Definition parse_layout (l : layout) (s : bytes) : option (res Z) :=
+  match l with
+  | LIsoNano | LIsoAuto =>
+      finish (parse_date false s) (fun ymd s =>
+      finish (literal 84 s) (fun _ s =>
+      finish (parse_hms false s) (fun hms s =>
+      finish (match l with LIsoNano => nanosecond9_opt s | _ => nanosecond_opt s end) (fun nano s =>
+      finish (trim_start s) (fun _ s =>
+      finish (timezone_offset false s) (fun off s =>
+      match s with [] => Some (resolve ymd hms nano off) | _ => Some RErr end))))))       (* TOO_LONG *)
+  | LRfc3339 =>
+      finish (parse_date true s) (fun ymd s =>
+      match s with
+      | [] => Some RErr
+      | c :: s =>
+          if negb ((c =? 116) || (c =? 84) || (c =? 32))%N then Some RErr else
+          finish (parse_hms true s) (fun hms s =>
+          finish (nanosecond_opt s) (fun nano s =>
+          finish (trim_start s) (fun _ s =>
+          finish (trim_start s) (fun _ s =>
+          let after_offset (p : pr Z) : option (res Z) :=
+            finish p (fun off s => match s with [] => Some (resolve ymd hms nano off) | _ => Some RErr end) in
+          match s with
+          | u :: t :: c :: s' =>
+              if ((u =? 85) || (u =? 117))%N && ((t =? 84) || (t =? 116))%N && ((c =? 67) || (c =? 99))%N
+              then after_offset (POk 0 s')                    (* "UTC" in place of the offset *)
+              else after_offset (timezone_offset true s)
+          | _ => after_offset (timezone_offset true s)
+          end))))
+      end)
+  | LSpaceNum =>
+      finish (parse_date false s) (fun ymd s =>
+      finish (trim_start s) (fun _ s =>
+      finish (parse_hms false s) (fun hms s =>
+      finish (literal 46 s) (fun _ s =>
+      finish (numeric 9 false s) (fun nano s =>
+      match s with [] => Some (resolve ymd hms (Some nano) 0) | _ => Some RErr end)))))
+  end.
+
+Definition parse_timestamp (x fmt : value) : option (res value) :=
+  match x with
+  | VBytes s =>
+      match fmt with
+      | VBytes f =>
+          match layout_of f with
+          | Some l => match parse_layout l s with
+                      | Some (ROk ns) => Some (ROk (VTs ns))
+                      | Some _ => Some RErr
+                      | None => None
+                      end
+          | None => None
+          end
+      | _ => Some RErr
+      end
+  | VTs _ => Some (ROk x)
+  | _ => Some RErr
+  end.
